@@ -197,6 +197,7 @@ class Canon:
         self.cache = os.path.realpath(cache).rstrip("/")
         self.names = names if names is not None else {"dirs": {}, "toks": {}, "k": 0}
         self.notes = []
+        self.origin = []     # per emitted step: (syscall name, its ordinal among the builder's calls of that name)
 
     # path classification ------------------------------------------------------------
     def rel(self, p):
@@ -260,6 +261,7 @@ class Canon:
         if main_pid is None:
             main_pid = recs[0][0] if recs else 0
         out = []
+        last_origin = ("start", 0)
         fds = {}            # main's fd -> (kind 'w'|'r'|'d', canonical name)
         pend_append = None  # [path, bytes]
         group = None        # collapsed children: dict(reads, writes, execs)
@@ -295,9 +297,16 @@ class Canon:
                 out.append((ts, "ev %s rmrf %s" % (pid_label, rm[0])))
                 rm = None
 
+        counts = {}
+        self.origin = []
         for (pid, ts, name, args, ret, raw) in recs:
             if name in ("+++", "---"):
                 continue
+            if pid == main_pid:
+                counts[name] = counts.get(name, 0) + 1
+            while len(self.origin) < len(out):
+                self.origin.append(last_origin)
+            last_origin = (name, counts.get(name, 0)) if pid == main_pid else ("child", 0)
             if pid != main_pid:
                 # ---- child process: collapse
                 if group is None:
@@ -432,6 +441,8 @@ class Canon:
         flush_group()
         flush_append()
         flush_rm()
+        while len(self.origin) < len(out):
+            self.origin.append(last_origin)
         return out if with_ts else [l for (_, l) in out]
 
 
